@@ -7,7 +7,7 @@ BLOCK = 4096
 ENCODED = ['yaml.scan / parse / compose_all / load_all (generator API, dispose in finally)', 'Reader.update / update_raw (refill on demand)',
            'Scanner.need_more_tokens / fetch_more_tokens / stale_possible_simple_keys (token look-ahead)', 'Parser document loop (parse_document_start / parse_document_end)']
 BOUNDS = {'quick': 'streams of 2-3 documents chosen by solver variables among 8 document kinds (empty, 1 character, simple key, flow collection, block scalar, 40 characters, '
-                   'closed by "...", closed by "..." then comments) followed by a tail of 3 blocks of comments or of another document, optionally a malformed last document; '
+                   'closed by "...", closed by "..." then comments) followed by a tail of 3 blocks (9 in the long-stream cells, 17 in the thorough tier) of comments or of further documents - the bound is checked for every document of the tail too -, optionally a malformed last document; '
                    'text and UTF-8 byte streams; the first two read sizes as solver variables; the four generator API functions; abandonment after the first document',
           'thorough': 'the same with 4 documents and three symbolic read sizes'}
 OUTSIDE = 'C input handler; document sizes are concrete (loops whose trip count grows with the input are a weak target): only the document kinds, the schedule and the tail are solver variables'
@@ -74,6 +74,10 @@ def incremental(d0: int, d1: int, d2: int, n: int, tail: int, nblocks: int, bad:
             ends.append(pos)                      # the tail starts with '---'
         else:
             ends.append(pos + len(tail_text))     # comments / blank lines up to the next token
+    if tail == 1 or tail == 3:
+        # the tail is itself a run of documents: each ends where the next '---' begins
+        for r in range(reps):
+            ends.append(pos + (r + 1) * len(t))
     text += tail_text
     if bad:
         text += '--- "unterminated\n'
@@ -87,12 +91,12 @@ def incremental(d0: int, d1: int, d2: int, n: int, tail: int, nblocks: int, bad:
         if api == 2:
             for ev in gen:
                 if isinstance(ev, yaml.DocumentEndEvent):
-                    if seen < n and stream.requested > ends[seen] + 2 * BLOCK:
+                    if seen < len(ends) and stream.requested > ends[seen] + 2 * BLOCK:
                         return fail(P, 'EAGER document %d delivered after %d units were requested, it ends at %d' % (seen, stream.requested, ends[seen]), api=api)
                     seen += 1
         else:
             for doc in gen:
-                if seen < n and stream.requested > ends[seen] + 2 * BLOCK:
+                if seen < len(ends) and stream.requested > ends[seen] + 2 * BLOCK:
                     return fail(P, 'EAGER document %d delivered after %d units were requested, it ends at %d' % (seen, stream.requested, ends[seen]), api=api)
                 seen += 1
     except yaml.YAMLError as e:
@@ -154,6 +158,14 @@ def jobs(tier):
                           budget=250 if q else 1800, exhaust=q,
                           bounds='%s: first document kind %d, second of %d kinds (4 in the quick tier), tails of 3 blocks (comments / documents; blank lines and block sequences in the thorough tier), malformed last document or not, first read of 1 or 4096 units' % (
                               ['load_all', 'compose_all', 'parse'][api], d, ND)))
+    for api in range(3):
+        js.append(Job('long-stream/api%d' % api, incremental,
+                      [lambda d0, d1, d2, n, tail, nblocks, bad, as_bytes, k1, k2, api, _a=api:
+                       api == _a and 0 <= d0 < ND and d1 == 2 and d2 == 0 and n == 2 and (tail == 1 or tail == 3) and nblocks == (9 if q else 17) and not bad and
+                       (not as_bytes if q else True) and k1 == 5000 and k2 == 5000],
+                      budget=250 if q else 900,
+                      bounds='%s: streams of %d blocks of documents behind 2 documents: every document of the stream is delivered with at most two blocks requested beyond its end' % (
+                          ['load_all', 'compose_all', 'parse'][api], 9 if q else 17)))
     js.append(Job('abandon', abandon, [lambda d0, api, how, as_bytes, k1: 0 <= d0 < ND and 0 <= api <= 2 and 0 <= how <= 2 and (k1 == 1 or k1 == 5000)],
                   budget=250, bounds='%d first documents x 3 API functions x {close, del, break} x text/bytes x 2 first read sizes' % ND))
     return js
